@@ -26,10 +26,15 @@ def main():
     seed = int(os.environ.get("VERIF_SEED", "1"))
     try:
         if a.setup:
-            ok, out = vlib.lake_build(["Cstl"] + vlib.all_exes())
+            ok, out = vlib.lake_build(["Cstl"])
             if not ok:
                 print(out[-4000:])
                 return 2
+            # model drivers: best effort here; a check that needs a driver
+            # builds it again itself and reports if that fails
+            for exe in vlib.all_exes():
+                ok, out = vlib.lake_build([exe])
+                print("setup: %s %s" % (exe, "ok" if ok else "FAILED"))
             print("setup ok")
             return 0
         mod = load_prop_module(a.prop)
